@@ -30,6 +30,14 @@ def gen_cases(tier, seed):
         c["pseed"] = int(rng.integers(0, 2 ** 31))
         c["nprog"] = 30
         cases.append(c)
+    # 64-bit integers as pandas nullable and as plain columns, with and without nulls, holding neighbours beyond 2**53; v1 pages
+    for j in range(12 if tier == "quick" else 200):
+        kinds = [["Int64", "int64"], ["UInt64", "uint64"], ["Int64", "UInt64"]][j % 3]
+        cols = [{"name": "rid", "kind": "rid"}] + [{"name": "v%d" % k_, "kind": kd, "nulls": ["none", "p20", "alt"][(j + k_) % 3] if kd[0] in "IU" else "none", "vals": "edge"}
+                                                   for k_, kd in enumerate(kinds)]
+        cases.append({"id": "NI/%d/%d" % (seed, j), "frame": {"seed": int(rng.integers(0, 2 ** 31)), "nrows": int(rng.integers(12, 60)), "cols": cols, "index": None},
+                      "opts": {"file_scheme": ["simple", "hive"][j % 2], "row_group_offsets": [None, 7, 20][j % 3], "has_nulls": True, "stats": True},
+                      "page_size": [None, 64][j % 2], "dpv": 1, "pseed": int(rng.integers(0, 2 ** 31)), "nprog": 40})
     return cases
 
 
@@ -109,6 +117,17 @@ def run_case(case):
             except Exception as e:
                 counters["refused"] = counters.get("refused", 0) + 1
                 counters["refused:" + type(e).__name__] = counters.get("refused:" + type(e).__name__, 0) + 1
+                shape_ = C.exc_shape(e)
+                if not isinstance(e, TypeError) and shape_.get("where") != "util.py:val_from_meta":
+                    # (val_from_meta: a constant of another family could not be turned into the partition column's type - a refusal too)
+                    # TypeError (numpy's UFuncTypeError included) is the library's way of refusing a comparison between types that have
+                    # no order / equality; anything else on a judgeable program is a read that should have worked
+                    groups_ = P.normalise_program(prog)
+                    fcols_ = {c for g in groups_ for c, _, _ in g}
+                    res["failures"].append({"kind": "filtered_read_raised", "program": desc, "read_columns_multi_page": sorted((set(ocols) | fcols_) & mp),
+                                            "filter_dtypes": {c: str(flat[c].dtype) for c in fcols_ if c in flat},
+                                            "filter_columns_with_nulls": sorted(c for c in fcols_ if c in flat and bool(flat[c].isna().any())),
+                                            "ops": sorted({op for g in groups_ for _, op, _ in g}), **info, **C.exc_shape(e)})
                 continue
             counters["programs_judged"] = counters.get("programs_judged", 0) + 1
             grids = [int(x) for x in got["rid"].tolist()]
